@@ -24,6 +24,10 @@ def make_jobs(r, n):
         k = r.random()
         if k < 0.5:
             f = defgen.gen_def(random.Random(r.randrange(1 << 30)))
+            if r.random() < 0.2 and f["doc"]:
+                # PyTorch-style option list in a google docstring (read as a Literal: its member order must not vary)
+                f["style"], f["brace_opts"] = "google", True
+                f["doc"][0]["typ"] = "str"
             jobs.append({"id": "j%d" % i, "kind": "parse_def", "facts": f, "form": r.choice(["function", "class_init"])})
             if jobs[-1]["form"] == "class_init":
                 f["method"] = True
@@ -76,7 +80,7 @@ class C12(C07):
     def extra(self, run):
         seeds = list(range(8)) + ["random"] if run.tier == "quick" else list(range(64)) + ["random", "random"]
         r = run.sub_rng("c12-batch")
-        jobs = make_jobs(r, 40 if run.tier == "quick" else 120)
+        jobs = make_jobs(r, 80 if run.tier == "quick" else 240)
         ids = [j["id"] for j in jobs]
         ref = run_worker({"jobs": jobs, "order": ids}, 0)
         run.count("sweep:conversions", len(ids))
